@@ -525,6 +525,10 @@ VSeekSnap(S, e, S2) ==
   THEN VErr(S, e, S2) \cup Chk("C12:seek-snap-code", (X = {} \/ ~ex) /\ e.code = "NotFound")
   ELSE IF X = {} \/ ~ex THEN {"C12:seek-snap-missing-ok"}
   ELSE IF e.snap \notin DOMAIN S.gsnap THEN {}  \* created outside any observed CreateSnap (already reported there)
+  \* a snapshot of another topic: outside the property ("a snapshot of the same or a sibling subscription of the topic")
+  ELSE IF \E x \in X : S.snaps[e.snap].topic # S.subs[x].topic THEN
+    Chk("C13:seek-other-subscription",
+        \A d \in Dels(S) : d[2] \notin X => SameDel(S, S2, d))
   ELSE
     LET s == CHOOSE x \in X : TRUE
         g == S.gsnap[e.snap]
